@@ -48,6 +48,32 @@ pub fn run(ctx: &Ctx) -> Report {
                     }
                 }
             }
+            // the well-formed message inside the framings it travels in (RFC 4571 length prefix, a 4-byte
+            // length, a TURN ChannelData header, a TLS record header, CR LF, a second copy behind it): the
+            // parser is handed a STUN message, not a frame
+            if toks.len() <= 3 {
+                let buf = engine_in::render(hv[0].0, hv[0].1, hv[0].2, toks);
+                if wire::decode(&buf).is_ok() {
+                    let n = buf.len();
+                    let pre: Vec<Vec<u8>> = vec![
+                        (n as u16).to_be_bytes().to_vec(),
+                        ((n + 2) as u16).to_be_bytes().to_vec(),
+                        (n as u32).to_be_bytes().to_vec(),
+                        [&[0x40u8, 0x00][..], &(n as u16).to_be_bytes()[..]].concat(),
+                        [&[0x17u8, 0x03, 0x03][..], &(n as u16).to_be_bytes()[..]].concat(),
+                        b"\r\n".to_vec(),
+                        vec![0x00],
+                    ];
+                    for p in pre {
+                        let mut b = p;
+                        b.extend_from_slice(&buf);
+                        judge_guarded(judge, &Case::new("parse", b).text(&["framed"]), &mut acc);
+                    }
+                    let mut twice = buf.clone();
+                    twice.extend_from_slice(&buf);
+                    judge_guarded(judge, &Case::new("parse", twice).text(&["framed"]), &mut acc);
+                }
+            }
             // all header variants on the fault-free buffer, faults on the first variant
             for (j, (c, m, t)) in hv.iter().enumerate() {
                 let buf = engine_in::render(*c, *m, *t, toks);
@@ -303,7 +329,7 @@ pub fn run(ctx: &Ctx) -> Report {
     Report {
         acc,
         exhaustive: true,
-        rule: "all attribute skeletons over {OPT,SW x len 0/1/3/4, MI, MI256, FP ok, FP bad} to the stated depth x 4 header variants (one per class); on each: every cut point, header-length perturbation, excess variant, per-attribute length perturbation, top bits, every cookie bit, non-zero padding; on skeletons of <= 3 attributes (thorough 4) also every value of every type/length byte of the header and of each attribute header and every single-bit flip of buffers up to 64 bytes; plus every 16-bit attribute type (value length 0 and 5) at each position of 10 templates around MI / MI256 / FP; large messages (one big attribute + every tail of <= 2 sealing attributes, ending at every multiple of 4 in 65480..=65552 and around 256 / 4096 / 32768) and values that look like sealing-attribute headers, each with header-length perturbations and cuts; all 16 384 (class, method) pairs x four small bodies x six variants; messages with 1..=200 / 1000 / 4000 / 16000 attributes; messages with two / three occurrences of each built-in type (valid, other valid, refused value, every order); typed lookups compared with the typed decoding of the first occurrence on every accepted message; distinct_nontrivial counts fault-free skeleton buffers".into(),
+        rule: "all attribute skeletons over {OPT,SW x len 0/1/3/4, MI, MI256, FP ok, FP bad} to the stated depth x 4 header variants (one per class); on each: every cut point, header-length perturbation, excess variant, per-attribute length perturbation, top bits, every cookie bit, non-zero padding; on skeletons of <= 3 attributes (thorough 4) also every value of every type/length byte of the header and of each attribute header and every single-bit flip of buffers up to 64 bytes; plus every 16-bit attribute type (value length 0 and 5) at each position of 10 templates around MI / MI256 / FP; large messages (one big attribute + every tail of <= 2 sealing attributes, ending at every multiple of 4 in 65480..=65552 and around 256 / 4096 / 32768) and values that look like sealing-attribute headers, each with header-length perturbations and cuts; all 16 384 (class, method) pairs x four small bodies x six variants; messages with 1..=200 / 1000 / 4000 / 16000 attributes; well-formed messages behind framing headers (2- and 4-byte lengths, ChannelData, TLS record, CR LF) and twice in a row; messages with two / three occurrences of each built-in type (valid, other valid, refused value, every order); typed lookups compared with the typed decoding of the first occurrence on every accepted message; distinct_nontrivial counts fault-free skeleton buffers".into(),
         bounds: json!({"skeletons": n_sk, "full_alphabet_depth": n_full, "small_alphabet_depth": n_small, "header_variants": 4, "faults": "single"}),
         assumptions: vec!["buffers outside the grammar alphabets and with two or more independent faults are not explored".into()],
         ..Default::default()
